@@ -86,4 +86,21 @@ def hybrid_layout(l0: int, l1: int, l2: int) -> bool:
         ok = ok & (g.parts[1].first_lba == 4 * e_efi.inode.extent_location()) & (g.parts[1].last_lba == 4 * e_efi.inode.extent_location() + e_efi.sector_count - 1)
         ok = ok & (g.parts[2].first_lba == 4 * e_mac.inode.extent_location()) & (g.parts[2].last_lba == 4 * e_mac.inode.extent_location() + e_mac.sector_count - 1)
     ok = ok & (e_efi.load_rba == e_efi.inode.extent_location()) & (e_mac.load_rba == e_mac.inode.extent_location())
+    # the RECORDED protective MBR (bytes 0..511 of the image): entries 2 and 3 decoded from the bytes the real record() emits
+    # (the GPT blob that follows is cut off: its CRC-32 is outside this obligation)
+    import pycdlib.isohybrid as _ih
+    _gr = _ih.GPT.record
+    _ih.GPT.record = lambda self: b''
+    try:
+        raw = hy.record(iso.pvd.space_size * 2048)
+    finally:
+        _ih.GPT.record = _gr
+    if len(raw) != 512 or raw[510:512] != b'\x55\xaa':
+        return False
+    ok = ok & (le32(raw, 432) == hy.rba)
+    e2, e3 = raw[446 + 16:446 + 32], raw[446 + 32:446 + 48]
+    if e2[4] != 0xef:
+        return False
+    ok = ok & (le32(e2, 8) == 4 * e_efi.inode.extent_location()) & (le32(e2, 12) == e_efi.sector_count)
+    ok = ok & (le32(e3, 8) == 4 * e_mac.inode.extent_location()) & (le32(e3, 12) == e_mac.sector_count)
     return h.post(ok)
